@@ -26,7 +26,8 @@ def main():
         jobs = {j.id: j for j in mod.jobs(tier)}
         job = jobs[job_id]
         scale = float(os.environ.get('VERIF_BUDGET_SCALE', '1'))
-        r = engine.run_cell(job.fn, job.pre, job.budget * scale, per_path_timeout=job.per_path_timeout, extra_patches=patches)
+        budget = float(os.environ.get('VERIF_JOB_BUDGET', job.budget))
+        r = engine.run_cell(job.fn, job.pre, budget * scale, per_path_timeout=job.per_path_timeout, extra_patches=patches)
         res.update(r)
         res['fn'] = job.fn.__name__
         res['need_reach'] = job.need_reach
